@@ -193,6 +193,10 @@ func (m *Model) classifyMapLoop(ml *mapLoop) *mapLoopVerdict {
 					}
 					continue
 				}
+				if why := m.indexedCollectThenSort(x, li, ar); why != "" {
+					v.notes = append(v.notes, why)
+					continue
+				}
 				effects++
 				persistent++
 				v.sensitive = append(v.sensitive, fmt.Sprintf("store to %s at %s (memory that outlives the iteration and is not keyed by the loop key)", valueDesc(x.Addr), m.InstrPos(in)))
@@ -620,4 +624,64 @@ func (m *Model) RunNondet(s *Sink, rule string, fns []*ssa.Function) {
 		}
 	}
 	s.OK(rule, "nondeterminism sources confined", "-", "%d uses of random/time/process sources, all inside builtins registered as shuffle or rand; none elsewhere in %d reachable functions", nAllowed, len(fns))
+}
+
+// indexedCollectThenSort: `sl[i] = v` inside a map range where sl is a slice made in this function, i counts the
+// passes (0, +1 per pass), the loop only writes sl, and after the loop sl is sorted before any other use: the
+// slice holds the same multiset whatever the iteration order and sorting removes the order.
+func (m *Model) indexedCollectThenSort(st *ssa.Store, li *loopInfo, ar *Arith) string {
+	ia, ok := st.Addr.(*ssa.IndexAddr)
+	if !ok {
+		return ""
+	}
+	mk, ok := ia.X.(*ssa.MakeSlice)
+	if !ok || li.body[mk.Block()] {
+		return ""
+	}
+	phi, ok := ia.Index.(*ssa.Phi)
+	if !ok || phi.Block() != li.header || ar.mapRangeCounter(phi) == nil {
+		return ""
+	}
+	ctx := m.Ctx(st.Parent())
+	var sorts, others []ssa.Instruction
+	for _, r := range *mk.Referrers() {
+		if li.body[r.Block()] {
+			if r != ssa.Instruction(ia) {
+				return "" // the loop also reads or re-slices it
+			}
+			continue
+		}
+		if c, isC := r.(*ssa.Call); isC {
+			if sc := c.Call.StaticCallee(); sc != nil && sortFuncs[fnFullName(sc)] && len(c.Call.Args) > 0 && sameSliceValue(c.Call.Args[0], mk) {
+				sorts = append(sorts, c)
+				continue
+			}
+		}
+		if _, isDbg := r.(*ssa.DebugRef); isDbg {
+			continue
+		}
+		others = append(others, r)
+	}
+	for _, r := range *ia.Referrers() {
+		if r != ssa.Instruction(st) {
+			if _, isDbg := r.(*ssa.DebugRef); !isDbg {
+				return ""
+			}
+		}
+	}
+	if len(sorts) == 0 {
+		return ""
+	}
+	for _, o := range others {
+		dom := false
+		for _, s := range sorts {
+			if ctx.instrDominates(s, o) {
+				dom = true
+			}
+		}
+		if !dom {
+			return ""
+		}
+	}
+	return "filled by pass counter into a slice that is sorted before use (" + fnFullName(sorts[0].(*ssa.Call).Call.StaticCallee()) + " at " + m.InstrPos(sorts[0]) + ")"
 }
